@@ -7,6 +7,7 @@ import (
 	"encoding/binary"
 	"encoding/hex"
 	"encoding/json"
+	"errors"
 	"flag"
 	"fmt"
 	"os"
@@ -309,7 +310,7 @@ func Check[C any](t *testing.T, name string, n int, gen func(*rapid.T) C, run fu
 			ran++
 			err = guard(run, c)
 			if err != nil && !IsSkip(err) {
-				if inc, isInc := err.(interface{ Inconclusive() bool }); isInc && inc.Inconclusive() {
+				if isInc(err) {
 					Inconclusive(name + ": " + err.Error())
 					continue
 				}
@@ -344,7 +345,7 @@ func Check[C any](t *testing.T, name string, n int, gen func(*rapid.T) C, run fu
 				if IsSkip(err) {
 					rt.Skip(err.Error())
 				}
-				if inc, ok := err.(interface{ Inconclusive() bool }); ok && inc.Inconclusive() {
+				if isInc(err) {
 					Inconclusive(name + ": " + err.Error())
 					return
 				}
@@ -393,7 +394,20 @@ func guard[C any](run func(c C) error, c C) (err error) {
 type Skip struct{ Why string }
 
 func (s *Skip) Error() string { return "skip: " + s.Why }
-func IsSkip(err error) bool   { _, ok := err.(*Skip); return ok }
+func IsSkip(err error) bool {
+	var s *Skip
+	return errors.As(err, &s)
+}
+
+// isInc reports whether err (or an error it wraps) is an inconclusive outcome.
+func isInc(err error) bool {
+	for e := err; e != nil; e = errors.Unwrap(e) {
+		if inc, ok := e.(interface{ Inconclusive() bool }); ok && inc.Inconclusive() {
+			return true
+		}
+	}
+	return false
+}
 
 // Inc is an inconclusive outcome (never a violation).
 type Inc struct{ Why string }
@@ -414,7 +428,7 @@ func Fixed[C any](t *testing.T, name string, each func(do func(c C) bool), run f
 		cnt++
 		Eval(1)
 		if err := guard(run, c); err != nil && !IsSkip(err) {
-			if inc, ok := err.(interface{ Inconclusive() bool }); ok && inc.Inconclusive() {
+			if isInc(err) {
 				Inconclusive(name + ": " + err.Error())
 				return true
 			}
